@@ -138,4 +138,15 @@ Proof.
   intros batches Hne Hnb HE Hc. split; [exact (marginal_batches_schedule_independent w0 batches ws sch HE Hc)|].
   unfold batches. rewrite map_map. exact (batching_invariant (value w0) rows n_batches Hne Hnb).
 Qed.
+(* the same for rows selected by an explicit index array (the accepted samples, or a shuffled evaluation order): batches of the
+   supplied rows in the supplied order *)
+Theorem idx_path_every_schedule (w0 : st) (idx_rows : list (arr1 F)) (n_batches : Z) (ws : list st) (sch : list (nat * nat)) :
+  let batches := map (task_rows idx_rows) (batch_tasks_gen (Z.of_nat (length idx_rows)) n_batches 0 false) in
+  idx_rows <> [] -> (1 <= n_batches)%Z -> Forall (cfg_eq w0) ws -> complete (length batches) (length ws) sch ->
+  pool_map st (list (arr1 F)) (list F) step_batch batches ws sch = map (fun b => Some (map (value w0) b)) batches /\
+  concat (map (map (value w0)) batches) = map (value w0) idx_rows.
+Proof.
+  intros batches Hne Hnb HE Hc. split; [exact (marginal_batches_schedule_independent w0 batches ws sch HE Hc)|].
+  unfold batches. rewrite map_map. exact (batching_invariant_idx (value w0) idx_rows n_batches Hne Hnb).
+Qed.
 End KS.
